@@ -221,3 +221,10 @@ Fixpoint aliased_loop (h : Z) (n i : nat) (cells : list N) (s : mstate) : outcom
   end.
 Definition manage_file_aliased (h : Z) (s : mstate) : outcome mstate :=
   let l := f_proofs (ms_file s) in aliased_loop h (length l) 0 l s.
+
+(* ---------- what MsgPostFile.ValidateBasic admits (x/storage/types/message_post_file.go) ----------
+   The reward walk's divisor is the sum of FileSize * len(Proofs) over all files; a file enters the
+   store only through a MsgPostFile that passed this stateless check, and never lists more than
+   MaxProofs provers. *)
+Definition post_admissible (size maxproofs : Z) : bool :=
+  (0 <? size) && (0 <? maxproofs) && (size <=? int64_max / maxproofs).
